@@ -9,7 +9,7 @@ use crate::explore::Caught;
 use crate::kit::Kit;
 use crate::oracles::{classify_motion, edge_covered, step_tau, Motion};
 use crate::report::{finish, CheckMeta, Report};
-use crate::scen::{Rig, Scenario, WorldSpec};
+use crate::scen::{ObstSpec, Rig, Scenario, WorldSpec};
 use crate::with_kit;
 use oxmpl::base::space::StateSpace;
 use rayon::prelude::*;
@@ -24,6 +24,20 @@ fn depth_for(kit: &str, tier: &str) -> usize {
         (_, true) => 5,
         (_, false) => 4,
     }
+}
+
+/// Centres of two balls: at distance `d` from the start toward the first goal sample, and at distance `d`
+/// from that goal sample toward the start.
+fn arms_length<K: Kit>(b: &crate::catalog::Base, d: f64) -> (crate::kit::V, crate::kit::V) {
+    use oxmpl::base::space::StateSpace;
+    let sp = K::build(&b.spec);
+    let s = K::from_v(&b.alphabet[b.start]);
+    let g = K::from_v(&b.goal_samples[0]);
+    let len = sp.distance(&s, &g);
+    let (mut a, mut c) = (s.clone(), s.clone());
+    sp.interpolate(&s, &g, d / len, &mut a);
+    sp.interpolate(&g, &s, d / len, &mut c);
+    (K::to_v(&a), K::to_v(&c))
 }
 
 pub fn scenarios(prop: &str, tier: &str) -> Vec<Scenario> {
@@ -68,6 +82,21 @@ pub fn scenarios(prop: &str, tier: &str) -> Vec<Scenario> {
         // deep seeded runs choose-parent and rewiring edges become longer than L while extensions never do
         if prop == "C15" && planners.contains(&Pk::Star) {
             out.push(b.scenario(b.world_free(), b.params(Pk::Star, 0.02, 50.0, 0.0), &format!("{prop}/{kit}/free/RRTStarx0.02/r50/tiny-step")));
+        }
+        // a step far below the resolution (a motion check is a single query, and the shortcuts that go with
+        // that) with obstacles whose rim is HALF a step from the start and from the goal root, on the line
+        // between them: the very first extension / connect step lands inside
+        if prop == "C15" || prop == "C16" {
+            let (near_s, near_g) = with_kit!(kit, arms_length(&b, 0.21));
+            let w = b.world_named("obstacles-at-arms-length", vec![ObstSpec::Ball(near_s, 0.2), ObstSpec::Ball(near_g, 0.2)]);
+            for &pk in &planners {
+                let roots: Vec<u8> = if pk == Pk::Connect { vec![0] } else { vec![0] };
+                for root in roots {
+                    let mut sc = b.scenario(w.clone(), b.params(pk, 0.02, 50.0, 0.0), &format!("{prop}/{kit}/obstacles-at-arms-length/{}x0.02/r50/tiny-step", pk.name()));
+                    sc.goal_root = root;
+                    out.push(sc);
+                }
+            }
         }
         // a planner object that has LIVED BEFORE: setup, several iterations on other samples, setup again
         // with the same problem - whatever a planner keeps beside its tree (tables indexed by node,
